@@ -41,20 +41,23 @@ MUTANTS = {
                                    "        free(pExpectError);\n        ErrorCount++;\n        return;\n    }"),
     # ---- C18 -------------------------------------------------------------------------------------------
     "c18_relaxed_leaks": ("C18", "as.c", "    SetFlag(&RelaxedMode, RelaxedName, DefRelaxedMode);\n    SetIntConstRelaxedMode(DefRelaxedMode);",
-                          "    if (PassNo > 0) SetFlag(&RelaxedMode, RelaxedName, RelaxedMode); else SetFlag(&RelaxedMode, RelaxedName, DefRelaxedMode);"),
-    "c18_ifasm_leaks": ("C18", "asmif.c", "void AsmIFInit(void) {\n    IfAsm = True;\n}", "void AsmIFInit(void) {\n}"),
+                          "    { static int b218_once; if (b218_once) SetFlag(&RelaxedMode, RelaxedName, RelaxedMode); else SetFlag(&RelaxedMode, RelaxedName, DefRelaxedMode); b218_once = 1; }"),
+    "c18_ifasm_leaks": ("C18", "asmif.c", "void AsmIFInit(void) {\n    IfAsm = True;\n}", "void AsmIFInit(void) {\n    static int b218_once;\n    if (!b218_once) IfAsm = True;\n    b218_once = 1;\n}"),
     "c18_radix_leaks": ("C18", "asmpars.c", "    RadixBase        = 10;\n", "    if (!RadixBase) RadixBase = 10;\n"),
     "c18_macros_leak": ("C18", "as.c", "    ClearMacroList();\n    ClearFunctionList();", "    ClearFunctionList();"),
-    "c18_functions_leak": ("C18", "as.c", "    ClearMacroList();\n    ClearFunctionList();", "    ClearMacroList();"),
-    "c18_expect_leaks": ("C18", "asmerr.c", "void AsmErrPassInit(void) {\n    ErrorCount = 0;\n    WarnCount  = 0;\n    ClearExpectErrors();\n    InExpect = False;",
-                         "void AsmErrPassInit(void) {\n    ErrorCount = 0;\n    WarnCount  = 0;"),
-    "c18_expect_leaks2": ("C18", "asmerr.c", "        WrError(ErrNum_MissingENDEXPECT);\n    }\n    ClearExpectErrors();\n    InExpect = False;",
-                          "        WrError(ErrNum_MissingENDEXPECT);\n    }"),
-    "c18_padding_leaks": ("C18", "as.c", "    SetFlag(&DoPadding, DoPaddingName, True);\n", "    SetFlag(&DoPadding, DoPaddingName, (PassNo > 0) ? DoPadding : True);\n"),
+    # (ClearFunctionList alone is an equivalent mutant: AsmParsInit drops the list head anyway)
+    "c18_functions_leak": ("C18", "as.c", "    ClearMacroList();\n    ClearFunctionList();", "    ClearMacroList();", 1,
+                           [("asmpars.c", "    FirstFunction    = NULL;\n", "")]),
+    # (removing only one of the two clean-ups of the EXPECT list is an equivalent mutant: each covers for the other)
+    "c18_expect_leaks": ("C18", "asmerr.c", "    ClearExpectErrors();\n    InExpect = False;\n}", "}", 2),
+    # (not kept: `SetFlag(&DoPadding, .., True)` made conditional in AssembleFile_InitPass is an equivalent mutant - every
+    #  SwitchTo_xxx sets DoPadding again; `AddSuffix(ErrorName, PrgSuffix)` loses diagnostics but not code: C02's matter)
     "c18_cpu_leaks": ("C18", "as.c", "    if (*DefCPU == '\\0') {\n        SetCPUByType(0, NULL);\n    } else {",
                       "    if (*DefCPU == '\\0') {\n        if (!MomCPU) SetCPUByType(0, NULL); else SetCPUByType(MomCPU, NULL);\n    } else {"),
     "c18_globerr_forgotten": ("C18", "as.c", "        GlobErrFlag = True;\n    }", "        GlobErrFlag = True;\n    } else {\n        GlobErrFlag = False;\n    }"),
-    "c18_symbols_leak": ("C18", "as.c", "    ClearSymbolList();\n    ClearCodepages();\n    ClearMacroList();", "    ClearCodepages();\n    ClearMacroList();"),
+    # (ClearSymbolList alone is an equivalent mutant: AsmParsInit drops the list head anyway)
+    "c18_symbols_leak": ("C18", "as.c", "    ClearSymbolList();\n    ClearCodepages();\n    ClearMacroList();", "    ClearCodepages();\n    ClearMacroList();", 1,
+                         [("asmpars.c", "void AsmParsInit(void) {\n    FirstSymbol = NULL;\n", "void AsmParsInit(void) {\n")]),
     # ---- C17 -------------------------------------------------------------------------------------------
     "c17_s_sets_relaxed": ("C17", "as.c", "    MakeSectionList = !Negate;\n    return CMDOK;", "    MakeSectionList = !Negate;\n    DefRelaxedMode  = !Negate;\n    return CMDOK;"),
     "c17_debug_moves_pc": ("C17", "asmsub.c", "        AddSectionUsage(ProgCounter(), CodeLen);\n", "        AddSectionUsage(ProgCounter(), CodeLen);\n        if (CodeLen > 2) PCs[ActPC]++;\n"),
@@ -63,7 +66,7 @@ MUTANTS = {
                             "    if (EnvLine[0] == '@') {\n        char Neg[] = \"-relaxed\";\n        DecodeLine(pCMDRecs, CMDRecCnt, Neg, ErrProc);\n        ProcessFile(EnvLine + 1, pCMDRecs, CMDRecCnt, ErrProc);"),
     "c17_lang_de_changes_code": ("C17", "as.c", "    SetFlag(&DoPadding, DoPaddingName, True);\n",
                                  "    SetFlag(&DoPadding, DoPaddingName, True);\n    if (getenv(\"LC_ALL\") && !strncmp(getenv(\"LC_ALL\"), \"de\", 2)) DefRelaxedMode = True;\n"),
-    "c17_quiet_skips_last_byte": ("C17", "as.c", "        if (CodeOutput) {\n            CloseFile();\n        }", "        if (CodeOutput) {\n            if (QuietMode > 1) { CodeLen = 0; }\n            CloseFile();\n        }"),
+    "c17_log_named_like_code": ("C17", "as.c", "        AddSuffix(ErrorName, LogSuffix);", "        AddSuffix(ErrorName, PrgSuffix);"),
 }
 
 
@@ -72,16 +75,24 @@ def sh(cmd, **kw):
 
 
 def run(name):
-    check, fname, old, new = MUTANTS[name]
+    check, fname, old, new = MUTANTS[name][:4]
+    times = MUTANTS[name][4] if len(MUTANTS[name]) > 4 else 1
     d = "/tmp/b218-mut-" + name
     shutil.rmtree(d, ignore_errors=True)
     shutil.copytree(os.environ.get("VERIF_REPO_BASE", "/repo"), d, ignore=shutil.ignore_patterns(".git"))
     p = os.path.join(d, fname)
     s = open(p, encoding="latin-1").read()
-    if s.count(old) != 1:
+    if s.count(old) != times:
         shutil.rmtree(d, ignore_errors=True)
         return name, check, "NOT-APPLICABLE (anchor text occurs %d times)" % s.count(old)
     open(p, "w", encoding="latin-1").write(s.replace(old, new))
+    for (f2, old2, new2) in (MUTANTS[name][5] if len(MUTANTS[name]) > 5 else []):
+        p2 = os.path.join(d, f2)
+        s2 = open(p2, encoding="latin-1").read()
+        if s2.count(old2) != 1:
+            shutil.rmtree(d, ignore_errors=True)
+            return name, check, "NOT-APPLICABLE (second anchor text occurs %d times)" % s2.count(old2)
+        open(p2, "w", encoding="latin-1").write(s2.replace(old2, new2))
     verdict = ""
     if os.environ.get("B218_CTEST"):
         b = d + "-b"
@@ -96,7 +107,10 @@ def run(name):
         tail = r.stdout.decode("latin-1").strip().splitlines()
         verdict = "ctest: " + " ".join(x for x in tail if "tests passed" in x or "tests failed" in x) + "; "
         shutil.rmtree(b, ignore_errors=True)
-    env = dict(os.environ, VERIF_REPO=d, VERIF_CACHE="/tmp/b218-cache", VERIF_JOBS=os.environ.get("VERIF_JOBS", "6"),
+        if os.environ.get("B218_CTEST") == "only":
+            shutil.rmtree(d, ignore_errors=True)
+            return name, check, verdict + "exit=1 (check not run)"
+    env = dict(os.environ, VERIF_REPO=d, VERIF_CACHE=os.environ.get("B218_CACHE", "/tmp/b218-cache"), VERIF_JOBS=os.environ.get("VERIF_JOBS", "6"),
                VERIF_EVIDENCE_KEEP="1")
     ev = os.path.join(HERE, "evidence", check + ".json")
     keep = open(ev).read() if os.path.exists(ev) else None
@@ -122,7 +136,7 @@ def main():
         name, check, verdict = run(n)
         tag = "CAUGHT" if "exit=1" in verdict else "MISSED"
         print("%-30s %s %s  %s" % (name, check, tag, verdict), flush=True)
-    shutil.rmtree("/tmp/b218-cache", ignore_errors=True)
+    shutil.rmtree(os.environ.get("B218_CACHE", "/tmp/b218-cache"), ignore_errors=True)
 
 
 if __name__ == "__main__":
